@@ -169,7 +169,9 @@ pub fn replay(j: &serde_json::Value) -> serde_json::Value {
     let txns = Arc::new(AtomicUsize::new(0));
     let faulty = Faulty { inner: storage, txns: txns.clone(), plan: Arc::new(Mutex::new(plan)), seen: Arc::new(Mutex::new(Default::default())) };
     // ---- allow-list
-    let allow: Option<HashSet<Uuid>> = if labels.first().map(|s| s.as_str()) == Some("allow-list configured") {
+    let allow: Option<HashSet<Uuid>> = if labels.first().map(|s| s.as_str()) == Some("allow-list configured (empty)") {
+        Some(HashSet::new())
+    } else if labels.first().map(|s| s.as_str()) == Some("allow-list configured") {
         let mut s = HashSet::new();
         if has(&labels, "allow-list contains") {
             s.insert(client_id);
